@@ -50,6 +50,12 @@ func Sites(sp *spec.Spec, g *valgen.G, t *spec.Type, val *spec.Val, v any, path 
 	for _, m := range valgen.AllVals(sp, t, val) {
 		m := m
 		add := func(rule, side string, nv any) {
+			if !TransportSafe(loc, nv) {
+				return // net/http would alter or drop the value in this location
+			}
+			if loc == valgen.Path && vtree.Kind(nv) == "s" && vtree.Text(nv) == "" {
+				return
+			}
 			out = append(out, Site{Desc: rule + ":" + side + ":" + path, Rule: rule, Side: side, Apply: func() { set(nv) }})
 		}
 		if len(m.Enum) > 0 {
@@ -411,6 +417,8 @@ func malformed(sp *spec.Spec, sv *spec.Service, m *spec.Method, r *vc.Rand, mk f
 					continue
 				}
 				c := mk("malformed:param-not-" + k)
+				c.Sent = vtree.Clone(tree)
+				delete(c.Sent.(map[string]any), a.Name)
 				c.Raw = rq
 				c.Note["mode"] = "raw"
 				c.Note["expect_names"] = []string{"invalid_field_type"}
@@ -428,9 +436,10 @@ func malformed(sp *spec.Spec, sv *spec.Service, m *spec.Method, r *vc.Rand, mk f
 	if err != nil || len(rq.Body) < 2 {
 		return out
 	}
-	// truncated JSON
-	{
+	// truncated JSON (only structured bodies: a truncated number is still a number)
+	if rq.Body[0] == '{' || rq.Body[0] == '[' || rq.Body[0] == '"' {
 		c := mk("malformed:truncated-json")
+		c.Sent = tree
 		cp := *rq
 		cp.Body = rq.Body[:len(rq.Body)-1]
 		c.Raw = &cp
@@ -463,6 +472,7 @@ func malformed(sp *spec.Spec, sv *spec.Service, m *spec.Method, r *vc.Rand, mk f
 				continue
 			}
 			c := mk("malformed:json-kind-" + k)
+			c.Sent = tree
 			c.Raw = rq2
 			c.Note["mode"] = "raw"
 			c.Note["expect_names"] = []string{"decode_payload", "invalid_field_type"}
@@ -482,6 +492,7 @@ func malformed(sp *spec.Spec, sv *spec.Service, m *spec.Method, r *vc.Rand, mk f
 	}
 	if needBody {
 		c := mk("malformed:empty-body")
+		c.Sent = tree
 		cp := *rq
 		cp.Body = nil
 		c.Raw = &cp
